@@ -35,6 +35,9 @@ CLAIMS['C08'] = {
     'note': COMMON_NOTE + "Rust's `as` cast on integers is modelled (wrap modulo 2^bits), not verified; discriminants are read off the emitted literals.",
     'technique': 'Lean 4 proof (induction over the variant list; modelled integer casts) + differential correspondence + output oracle',
 }
+EXEC = (" O4 execution (every run, 64-bit host): for a sample of accepted worlds (all 200 of the extra stream in the thorough tier) the emitted files are "
+        "compiled into a program and the wrappers / accessors are RUN against recording stubs (fake vftables whose slot k is stub k, trampolines "
+        "mmap'ed at the declared absolute addresses, data pages at singleton / extern addresses): ")
 CLAIMS['C04'] = {
     'text': ("Theorems: slots – for every accepted vftable block, any number of functions and any index pattern, function k sits in the "
              "slot the description says (written index, else predecessor+1, else 0), all other slots hold the private thiscall "
@@ -42,9 +45,9 @@ CLAIMS['C04'] = {
              "too-small indexes and sizes are errors; vftable_item/slot_offset – the generated struct has one pointer-sized field per "
              "slot and, under the modelled repr(C) rules, slot k is at byte k*ps; wrapper_shape/vfunc_body – the emitted wrapper reads "
              "the slot named after the function and forwards receiver then arguments in order. Correspondence with pyxis and an "
-             "oracle on the emitted <T>Vftable struct and wrappers on every run. The run-time clause (one call through that slot) is "
-             "covered through the emitted shape, not by a theorem about an execution model."),
-    'note': COMMON_NOTE + "rustc's repr(C) layout is modelled (RustSem), not verified; wrappers are not executed in the quick tier.",
+             "oracle on the emitted <T>Vftable struct and wrappers on every run. The run-time clause (exactly one call through that slot, receiver = object address, arguments in order, callee's value returned) "
+             "is not a theorem about an execution model; it is observed." + EXEC + "the stub hit must be the slot the DESCRIPTION assigns, exactly once."),
+    'note': COMMON_NOTE + "rustc's repr(C) layout is modelled (RustSem), validated by the real compiler; the execution run is testing of the emitted code on the host CPU with ABI strings normalised to \"C\" and integer/pointer arguments only.",
     'technique': 'Lean 4 proof (loop invariant over the slot table) + differential correspondence + output oracle',
 }
 CLAIMS['C05'] = {
@@ -55,7 +58,7 @@ CLAIMS['C05'] = {
              "blocks of a type are present (impl_functions_all_present, impl_blocks_merged); hex_roundtrip – the printed literal "
              "denotes the declared number. Correspondence and an oracle on every emitted wrapper on every run. Known finding: "
              "functions named `_…` are accepted but not emitted."),
-    'note': COMMON_NOTE + "the run-time clause (exactly one call to A) is covered through the emitted shape; quote!/prettyplease are outside the model, the harness re-parses their output.",
+    'note': COMMON_NOTE + "the run-time clause (exactly one call to A with receiver then arguments, value returned) is observed by O4 execution (trampoline at the declared address -> recording stub; host ABI \"C\", integer/pointer arguments), not proved; quote!/prettyplease are outside the model, the harness re-parses their output.",
     'technique': 'Lean 4 proof (attribute-loop invariant, list induction) + differential correspondence + output oracle',
 }
 CLAIMS['C06'] = {
@@ -119,7 +122,7 @@ CLAIMS['C15'] = {
              "emitted, and none without the attribute; extern_without_address_rejected; extern_value_type; getter_semantics – the modelled "
              "run-time meaning of the three shapes (None iff the cell at A is null, else the pointer stored there; the value at A; the "
              "address A). Correspondence plus an oracle on every emitted accessor, with missing/negative-address streams."),
-    'note': COMMON_NOTE + "the run-time meaning of the shapes is a three-line model of Rust semantics, not verified against rustc in the quick tier.",
+    'note': COMMON_NOTE + "the run-time meaning of the shapes is a three-line model of Rust semantics; it is validated on every run by O4 execution: the accessors are compiled and run with data pages mapped at the declared addresses (struct singleton: pointer stored there / null; enum singleton: value stored there; extern value: address returned).",
     'technique': 'Lean 4 proof (attribute-fold invariants; emitter unfolding; modelled accessor semantics) + differential correspondence + accessor oracle',
 }
 CLAIMS['C17'] = {
@@ -139,7 +142,7 @@ CLAIMS['C07'] = {
              "conversions_emitted / dfs_unfold – one AsRef/AsMut pair along the field path for each base type occurring once in the DFS "
              "hierarchy, a marker and no conversion for a type occurring more than once. Correspondence plus an oracle that recomputes "
              "the expected member and conversion lists of every derived type from the input and the implementation's output for its bases."),
-    'note': COMMON_NOTE + "that a forwarding call lands on the sub-object at the base's offset is Rust's field-projection semantics plus C01; not a theorem here, executed only in the thorough tier.",
+    'note': COMMON_NOTE + "that a forwarding call lands on the sub-object at the base's offset is Rust's field-projection semantics plus C01; not a theorem here; it is observed by O4 execution on every run (the stub must see object address + the offset of the base sub-object as receiver; AsRef conversions must return object address + the offset of the field path).",
     'technique': 'Lean 4 proof (fold invariant of the injection loop; emitter unfolding) + differential correspondence + member-set oracle',
 }
 CLAIMS['C20'] = {
